@@ -10,6 +10,7 @@
    between consecutive records the counters advance by exactly the per-period state variables (Sim/PerPeriod.v). Multi-product networks (bills of materials) are covered by correspondence-free
    monitors on the implementation only (see the claim). *)
 From SV Require Import Sim.Model Sim.Inv_book Sim.Inv_pipe Sim.Inv_run Sim.Main Sim.Example.
+From SV Require Import Sim2.State2 Sim2.Model2 Sim2.Inv2b_tac Sim2.Inv2b_book Sim2.Inv2b_pipe Sim2.Inv2b_init Sim2.Main2b.
 
 Section C01.
 Variable (NW : net) (inputs : list ((N -> bool) * (N -> Q))).
@@ -64,6 +65,62 @@ Example C01_nonvacuous : good ex_net /\ dem_ok ex_inputs /\
   exists e, In e (run ex_net ex_inputs) /\ 0 < gq e (fBO, 2%N, Nd 3%N) + gq e (fBO, 3%N, Ext) /\ 0 < qsum (gl e (fSP, 3%N, Nd 2%N)) + gq e (fODI, 2%N, Nd 3%N).
 Proof. exact (conj ex_good (conj ex_dem_ok ex_nontrivial)). Qed.
 
+(* ============ MULTI-PRODUCT networks with bills of materials (Stage-2 model Sim2/Model2.v; proofs Sim2/Inv2b_*.v, Main2b.v) ============
+   Conservation per (node, customer, product) and per (node, supplier, raw material), with ARBITRARY bill-of-materials numbers, for every
+   run of every network accepted by the boolean well-formedness check [goodB2b] (duplicate-free product / customer / supplier / raw-material
+   tables, BOM numbers >= 0 on the node's raw materials, every supplier of a raw material lists the node as a customer of that product,
+   policy parameters giving non-negative orders, non-negative initial values, traversals visiting every node with successors first);
+   they hold for every value of the position-error input i_err (conservation does not depend on the order quantities).
+   [sup_edge NW n p r]: node n obtains raw material r from p; [cus_edge NW n c k]: c is a customer of product k at node n. *)
+Theorem C01_multi_order_conservation : forall (NW : net2) (inputs : inputs2), goodB2b NW = true -> demB_ok2 inputs ->
+  forall e n c k, In e (run2 NW inputs) -> cus_edge NW n c k ->
+  gq2 e (fcIO, n, c, k) == gq2 e (fcOS, n, c, k) + gq2 e (fBO, n, c, k) + gq2 e (fODI, n, c, k).
+Proof. exact order_conservation2. Qed.
+Theorem C01_multi_edge_conservation : forall (NW : net2) (inputs : inputs2), goodB2b NW = true ->
+  forall e n p r, In e (run2 NW inputs) -> sup_edge NW n (Nd p) r ->
+  gq2 e (fcOS, p, Nd n, r) + sp02 NW n == gq2 e (fcIS, n, Nd p, r) + qsum (gl2 e (fSP, n, Nd p, r)) + gq2 e (fIDI, n, Nd p, r).
+Proof. exact edge_conservation2. Qed.
+Theorem C01_multi_external_edge_conservation : forall (NW : net2) (inputs : inputs2), goodB2b NW = true ->
+  forall e n r, In e (run2 NW inputs) -> sup_edge NW n Ext r ->
+  gq2 e (fcOQ, n, Ext, r) + (sp02 NW n + io02 NW n) == gq2 e (fcIS, n, Ext, r) + qsum (gl2 e (fSP, n, Ext, r)) + gq2 e (fIDI, n, Ext, r).
+Proof. exact external_edge_conservation2. Qed.
+Theorem C01_multi_inventory_balance : forall (NW : net2) (inputs : inputs2), goodB2b NW = true -> demB_ok2 inputs ->
+  forall e n k, In e (run2 NW inputs) -> In n (nodes2 NW) -> In k (n_prods (cfg2 NW n)) ->
+  gq2 e (fIL, n, Ext, k) == il02 NW n k + gq2 e (fCP, n, Ext, k) - gq2 e (fDC, n, Ext, k).
+Proof. exact inventory_balance2_dc. Qed.
+(* raw-material stock = receipts - what production consumed, with the bill of materials *)
+Theorem C01_multi_raw_material_balance : forall (NW : net2) (inputs : inputs2), goodB2b NW = true ->
+  forall e n r, In e (run2 NW inputs) ->
+  gq2 e (fRM, n, Ext, r) == qsumf (fun p => gq2 e (fcIS, n, p, r)) (m_sups (RC NW n r))
+                            - qsumf (fun k => nbom (PC NW n k) r * gq2 e (fCP, n, Ext, k)) (n_prods (cfg2 NW n)).
+Proof. exact raw_material_balance2. Qed.
+(* per-period forms (every node visited once per traversal: onceB2b) *)
+Theorem C01_multi_per_period_inventory : forall (NW : net2) (inputs : inputs2), goodB2b NW = true -> onceB2b NW = true -> demB_ok2 inputs ->
+  forall t, (S t < length inputs)%nat -> forall n k, In n (nodes2 NW) -> In k (n_prods (cfg2 NW n)) ->
+  gq2 (nth (S t) (run2 NW inputs) empty_st2) (fIL, n, Ext, k) ==
+  gq2 (nth t (run2 NW inputs) empty_st2) (fIL, n, Ext, k)
+  + (gq2 (nth (S t) (run2 NW inputs) empty_st2) (fCP, n, Ext, k) - gq2 (nth t (run2 NW inputs) empty_st2) (fCP, n, Ext, k))
+  - qsumf (fun c => gq2 (nth (S t) (run2 NW inputs) empty_st2) (fIO, n, c, k)) (k_custs (PC NW n k)).
+Proof. exact per_period_inventory2. Qed.
+Theorem C01_multi_per_period_raw_material : forall (NW : net2) (inputs : inputs2), goodB2b NW = true -> onceB2b NW = true ->
+  forall t, (S t < length inputs)%nat -> forall n r, In n (nodes2 NW) -> In r (n_rms (cfg2 NW n)) ->
+  gq2 (nth (S t) (run2 NW inputs) empty_st2) (fRM, n, Ext, r) ==
+  gq2 (nth t (run2 NW inputs) empty_st2) (fRM, n, Ext, r)
+  + qsumf (fun p => gq2 (nth (S t) (run2 NW inputs) empty_st2) (fIS, n, p, r)) (m_sups (RC NW n r))
+  - qsumf (fun k => nbom (PC NW n k) r * (gq2 (nth (S t) (run2 NW inputs) empty_st2) (fCP, n, Ext, k) - gq2 (nth t (run2 NW inputs) empty_st2) (fCP, n, Ext, k)))
+          (n_prods (cfg2 NW n)).
+Proof. exact per_period_raw_material2. Qed.
+Theorem C01_multi_per_period_edge : forall (NW : net2) (inputs : inputs2), goodB2b NW = true -> onceB2b NW = true ->
+  forall t, (S t < length inputs)%nat -> forall n p r, sup_edge NW n (Nd p) r ->
+  gq2 (nth (S t) (run2 NW inputs) empty_st2) (fOS, p, Nd n, r) ==
+  gq2 (nth (S t) (run2 NW inputs) empty_st2) (fIS, n, Nd p, r)
+  + (qsum (gl2 (nth (S t) (run2 NW inputs) empty_st2) (fSP, n, Nd p, r)) - qsum (gl2 (nth t (run2 NW inputs) empty_st2) (fSP, n, Nd p, r)))
+  + (gq2 (nth (S t) (run2 NW inputs) empty_st2) (fIDI, n, Nd p, r) - gq2 (nth t (run2 NW inputs) empty_st2) (fIDI, n, Nd p, r)).
+Proof. exact per_period_edge2. Qed.
+(* two suppliers of one raw material, two products sharing it with BOM numbers 2 and 3, three disruption types: hypotheses hold *)
+Example C01_multi_nonvacuous : goodB2b exB2_net = true /\ onceB2b exB2_net = true /\ demB_ok2 exB2_inputs.
+Proof. exact (conj (proj1 main2b_nonvacuous) (conj (proj1 (proj2 main2b_nonvacuous)) (proj1 (proj2 (proj2 main2b_nonvacuous))))). Qed.
+
 Print Assumptions C01_inventory_balance.
 Print Assumptions C01_raw_material_balance.
 Print Assumptions C01_edge_conservation.
@@ -73,3 +130,11 @@ Print Assumptions C01_per_period_inventory.
 Print Assumptions C01_per_period_raw_material.
 Print Assumptions C01_per_period_edge.
 Print Assumptions C01_per_period_order_conservation.
+Print Assumptions C01_multi_order_conservation.
+Print Assumptions C01_multi_edge_conservation.
+Print Assumptions C01_multi_external_edge_conservation.
+Print Assumptions C01_multi_inventory_balance.
+Print Assumptions C01_multi_raw_material_balance.
+Print Assumptions C01_multi_per_period_inventory.
+Print Assumptions C01_multi_per_period_raw_material.
+Print Assumptions C01_multi_per_period_edge.
